@@ -354,7 +354,7 @@ def norm(v):
 # Typed generator
 
 WORDS = ['NETFLIX', 'Uber', 'eats', 'STAR', 'bucks', 'AMZN', 'Mktp', 'COSTCO', 'whole', 'Foods', 'café', 'ÜBER',
-         '-', '*', '  ', '7', '42', 'a.b', "O'R", 'SQ *', '#12']
+         '-', '*', '  ', '7', '42', 'a.b', "O'R", 'SQ *', '#12', 'DISNEY+', '+', '(EU)', 'A+B', ',', 'STORE', 'DISNEY']
 REGEXES = [r'\D+', r'^\S+\s\S', r'^\s?\w+\W', r'\BEATS\B', r'UBER\s(?!EATS)', r'^AMZN', r'\d+', r'(net|hulu)flix', r'star.?bucks', r'\bEATS\b', r'REF:(\d+)', r'#(\d+)',
            r'^(\w+)', r'[A-Z]{4}', r'(a)|(b)', r'\s{2,}', r'foods$', r'COSTCO\s+(\w+)', r'x*']
 ISO = ['2025-01-15', '2024-12-31', '2025-01-01', '2025-02-28', '2024-02-29', '2023-06-30']
